@@ -27,7 +27,11 @@ extern "C" void __wrap___gmpz_urandomm(mpz_ptr rop, gmp_randstate_t st, mpz_srcp
 {
     simrand::State &s = simrand::state();
     uint64_t idx = s.gmp_draws++;
-    if (s.budget && s.gmp_draws > 64 * s.budget)
+    // bounded liveness: a call that keeps drawing without finishing (a retry
+    // loop that cannot succeed) ends here instead of at the watchdog
+    // (a factorisation of degree <= 12 or a modular root draws a few dozen
+    // numbers; 4000 draws are more than 170 failed attempts in a row)
+    if (s.budget && s.gmp_draws > s.gmp_budget)
         throw simrand::BudgetExceeded();
     // n may alias rop
     mpz_t nn;
